@@ -10,6 +10,8 @@ static rc::Gen<Case> case_gen() {
         int64_t own = 0x020000000000LL | *range<int64_t>(1, 0xFFFFFF);
         c.cfg = {mtu, *pick({0, 0, 1}), own, *pick({0, 0, 0, 1})};
         c.blobs = {*bytes(0, 40), *bytes(0, 40), *bytes(0, 900), *chance(25) ? *bytes(500, 2400) : *bytes(0, 80), *bytes(0, 64)};   // friendly name: sometimes longer than one (or four) frames
+        // now and then a name that starts like a byte-order mark or with a NUL unit (text in some encoding, as platforms hand it over)
+        for (size_t bi : {(size_t)0, (size_t)3}) if (*chance(8) && c.blobs[bi].size() >= 4) { static const std::vector<Bytes> pre = {{0xFF, 0xFE}, {0xFE, 0xFF}, {0xEF, 0xBB, 0xBF}, {0x00, 0x00}}; const Bytes &p = pre[(size_t)*range<int>(0, 3)]; std::copy(p.begin(), p.end(), c.blobs[bi].begin()); }
         Mac ownm = mac_from_u64((uint64_t)own);
         int n = *range<int>(1, 24);
         auto steps = *rc::gen::resize(n, rc::gen::container<std::vector<Op>>(rc::gen::exec([=] {
